@@ -234,6 +234,13 @@ func benchConfig(only ...tbench.Server) (c tbench.Config) {
 // Expectation of a probe on a path, from the bytes sent only.
 // ---------------------------------------------------------------------------
 
+// udpReadSize is the documented default size of the UDP read buffers.
+const udpReadSize = 512
+
+// initialBufSize is the initial size of the pooled UDP and TCP/DoT read
+// buffers (ConfigDNS.UDPSize / TCPSize defaults).
+const initialBufSize = 512
+
 // frameExp is one message as a correct reader of the transport framing would
 // delimit it.
 type frameExp struct {
@@ -292,7 +299,20 @@ func singleExp(msg []byte) (px *pexp) {
 
 func expectOn(p *pathDef, bt *built) (px *pexp) {
 	switch p.name {
-	case "udp", "udp-btd", "doh-post":
+	case "udp", "udp-btd":
+		// ConfigDNS.UDPSize: "the size of the buffers used to read incoming
+		// UDP messages ... defaults to 512 B": what lies beyond it never
+		// reaches the server, on a fresh listener either, so the own bytes of
+		// a datagram end there.
+		if len(bt.msg) > udpReadSize {
+			px = singleExp(bt.msg[:udpReadSize])
+			px.frames[0].sent = bt.msg
+
+			return px
+		}
+
+		return singleExp(bt.msg)
+	case "doh-post":
 		return singleExp(bt.msg)
 	case "doh-get":
 		if bt.rawDNSParam == nil {
